@@ -5,7 +5,8 @@ import pyref
 from props.c07 import mprime
 
 RULE = ("for each set, for valid (pk, M, sig) triples: EVERY single-bit flip of the signature (exhaustive, 8*SIGNBYTES verifications in the crate), "
-        "truncation and extension by 1..8 bytes, every single-bit flip and +-1-byte change of short messages, other context / mode / hash, another key, "
+        "truncation and extension by 1..8 bytes, every single-bit flip and +-1-byte change of short messages, other context / mode / hash (incl. over-long "
+        "contexts of 256, 257, 300, 511, 512 bytes against a signature for the framing with the wrapped length byte), another key, "
         "and the sibling scheme of equal sizes (Dilithium2 <-> ML-DSA-44, keys of other seeds); each must be rejected. The model re-evaluates a "
         "stratified sample of the flips (challenge, each z polynomial region, hint indices, counters, padding; each bit position) and must agree. "
         "Non-trivial = every altered input; distinct by (set, altered triple).")
@@ -112,6 +113,18 @@ def extra(rep, cov, tier, rng):
                     calls.append(("ml_verify", api, [pk, m, sigs[i], c2]) if mode2 == "pure" else
                                  ("ml_prehash_verify", api, [pk, m, sigs[i], c2, 0 if mode2 == "sha256" else 1]))
                     why.append("signed under (%s,%r) verified under (%s,%r)" % (mode, ctx, mode2, ctx2))
+            # a context longer than 255 bytes is a different (invalid) context: a signature for (ctx = X[:n mod 256] .., message = rest)
+            # whose framed bytes coincide with the wrapped-length framing of (ctx = X, M) must not verify under (X, M)
+            from props.c07 import OID
+            import hashlib
+            for n in (256, 257, 300, 511, 512):
+                ctx = bytes(rng.randrange(256) for _ in range(n))
+                for mode in ("pure", "sha256", "sha512"):
+                    tail = m if mode == "pure" else OID[0 if mode == "sha256" else 1] + (hashlib.sha256(m).digest() if mode == "sha256" else hashlib.sha512(m).digest())
+                    wrapped = bytes([0 if mode == "pure" else 1, n % 256]) + ctx + tail
+                    sg = pyref.sign(p, sk, wrapped)
+                    calls.append(("ml_verify", api, [pk, m, sg, ctx]) if mode == "pure" else ("ml_prehash_verify", api, [pk, m, sg, ctx, 0 if mode == "sha256" else 1]))
+                    why.append("signature for the framing with length byte %d verified under a %d-byte context (%s)" % (n % 256, n, mode))
             for cl, w, r in zip(calls, why, crate(calls)):
                 total += 1
                 if r is None or r[0] != 0:
